@@ -384,8 +384,11 @@ fn witnesses() -> Vec<(&'static str, Vec<Tab>, Q)> {
         vec![iv(2), sv(""), V::Null], vec![iv(2), V::Null, V::B(true)], vec![V::Null, V::Null, V::Null], vec![iv(3), V::Null, V::B(true)], vec![iv(2), sv("b"), V::B(true)]] };
     let sub = Q::Project(vec![E::Col(0, 1)], Box::new(Q::Table(0)));
     let q1 = Q::Project(vec![E::Col(0, 0), E::Col(0, 1)], Box::new(Q::Filter(
-        E::Or(bx(E::InSub(true, bx(E::Col(0, 1)), Box::new(sub))), bx(E::Lit(V::B(false), Ty::Bool))), Box::new(Q::Table(0)))));
+        E::Or(bx(E::InSub(true, bx(E::Col(0, 1)), Box::new(sub.clone()))), bx(E::Cmp("=", bx(E::Col(0, 0)), bx(E::Lit(V::I(99), Ty::Int))))), Box::new(Q::Table(0)))));
     w.push(("witness_kf1", vec![t0.clone()], q1));
+    // NOT IN as a top-level conjunct: null-aware anti join; two-valued when extract_equijoin_predicate does not run
+    let q6 = Q::Project(vec![E::Col(0, 0), E::Col(0, 1)], Box::new(Q::Filter(E::InSub(true, bx(E::Col(0, 1)), Box::new(sub)), Box::new(Q::Table(0)))));
+    w.push(("witness_not_in_conjunct", vec![t0.clone()], q6));
     // KF3: NOT IN with a column-free left operand
     let t1 = Tab { types: vec![Ty::Int, Ty::Int], parts: 1, rows: vec![vec![iv(1), iv(1)], vec![iv(2), V::Null]] };
     let sub3 = Q::Project(vec![E::Lit(V::I(1), Ty::Int)], Box::new(Q::Table(1)));
